@@ -182,13 +182,32 @@ func judgeOrder(rec *stats.Rec, c engine.Case, reg lint.Registry) (string, strin
 // judgeOrderAfter: as judgeOrder; a result set of the same object and registry that is already at hand (lints in
 // the registry's order, fresh parse) stands in for the forward run.
 func judgeOrderAfter(rec *stats.Rec, c engine.Case, reg lint.Registry, forward *zlint.ResultSet) (string, string) {
-	if c.Kind != gen.Cert {
-		return "", ""
-	}
-	ls := reg.CertificateLints().Lints()
 	cfg := reg.GetConfiguration()
-	runIn := func(order []*lint.CertificateLint) map[string]model.Verdict {
-		pc, ok := gen.ParseCert(c.DER)
+	// one closure per lint of the kind, in the registry's order: run it on a parsed object of that kind
+	type runner struct {
+		name string
+		run  func(obj interface{}) *lint.LintResult
+	}
+	var ls []runner
+	switch c.Kind {
+	case gen.Cert:
+		for _, l := range reg.CertificateLints().Lints() {
+			l := l
+			ls = append(ls, runner{l.Name, func(o interface{}) *lint.LintResult { return l.Execute(o.(*zx509Cert), cfg) }})
+		}
+	case gen.CRL:
+		for _, l := range reg.RevocationListLints().Lints() {
+			l := l
+			ls = append(ls, runner{l.Name, func(o interface{}) *lint.LintResult { return l.Execute(o.(*zx509CRL), cfg) }})
+		}
+	default:
+		for _, l := range reg.OcspResponseLints().Lints() {
+			l := l
+			ls = append(ls, runner{l.Name, func(o interface{}) *lint.LintResult { return l.Execute(o.(*ocspResp), cfg) }})
+		}
+	}
+	runIn := func(order []runner) map[string]model.Verdict {
+		pc, ok := parsedOf(c.Kind, c.DER)
 		if !ok {
 			return nil
 		}
@@ -196,8 +215,8 @@ func judgeOrderAfter(rec *stats.Rec, c engine.Case, reg lint.Registry, forward *
 		for _, l := range order {
 			func() {
 				defer func() { _ = recover() }()
-				if r := l.Execute(pc, cfg); r != nil {
-					out[l.Name] = model.Verdict{Status: r.Status, Details: r.Details}
+				if r := l.run(pc); r != nil {
+					out[l.name] = model.Verdict{Status: r.Status, Details: r.Details}
 				}
 			}()
 		}
@@ -212,7 +231,7 @@ func judgeOrderAfter(rec *stats.Rec, c engine.Case, reg lint.Registry, forward *
 	if fwd == nil {
 		return "", ""
 	}
-	rev := make([]*lint.CertificateLint, len(ls))
+	rev := make([]runner, len(ls))
 	for i, l := range ls {
 		rev[len(ls)-1-i] = l
 	}
@@ -225,6 +244,9 @@ func judgeOrderAfter(rec *stats.Rec, c engine.Case, reg lint.Registry, forward *
 	for _, n := range names {
 		if b, ok := bwd[n]; ok && b.Status != fwd[n].Status {
 			return "lint-order|" + n, fmt.Sprintf("%s reports %s when the lints run in the registry's order and %s when they run in reverse order (each on a fresh parse)", n, fwd[n].Status, b.Status)
+		}
+		if b, ok := bwd[n]; ok && c.Kind != gen.Cert && b.Details != fwd[n].Details {
+			return "lint-order-details|" + n, fmt.Sprintf("%s says %q when the lints run in the registry's order and %q when they run in reverse order (each on a fresh parse)", n, short(fwd[n].Details, 120), short(b.Details, 120))
 		}
 	}
 	return "", ""
@@ -270,6 +292,41 @@ func TestC07(t *testing.T) {
 		if sig, msg := judgeOrder(rec, c, g); msg != "" {
 			if rec.Report("c07-order", sig, msg, c) {
 				t.Fatalf("c07 %s: %s: %s", o.Name, sig, msg)
+			}
+		}
+	}
+	// ... revocation lists and OCSP responses too: the corpus, the synthetic rich ones, and revocation lists whose
+	// entries carry different offending reason codes in every serial-number order (a lint that tidies the entry list
+	// up for itself changes what the next one finds first)
+	{
+		var objs []gen.Obj
+		co := gen.LoadCorpus()
+		objs = append(append(append(append(objs, co.CRLs...), co.OCSPs...), gen.RichCRLs()...), gen.RichOCSPs()...)
+		objs = append(append(objs, gen.ReasonCodeCRLs()...), gen.LargeCRLs()...)
+		for oi, o := range objs {
+			if !stats.Mine(oi) {
+				continue
+			}
+			c := engine.Case{Kind: o.Kind, DER: o.DER, Base: o.Name, Note: "lint-order"}
+			rec.Eval()
+			rec.Class("order_crl_ocsp")
+			if sig, msg := judgeOrder(rec, c, g); msg != "" {
+				if rec.Report("c07-order", sig, msg, c) {
+					t.Fatalf("c07 %s: %s: %s", o.Name, sig, msg)
+				}
+			}
+			// and every lint of the kind alone vs the full run
+			for _, l := range registryLints(g) {
+				if string(o.Kind) != l.Kind {
+					continue
+				}
+				c1 := c07Case{Case: engine.Case{Kind: o.Kind, DER: o.DER, Base: o.Name, Filters: []engine.FilterSpec{{IncludeNames: []string{l.Name}}}}}
+				rec.Eval()
+				if sig, msg := judgeC07(rec, c1); msg != "" {
+					if rec.Report("c07", sig, msg, c1) {
+						t.Fatalf("c07 %s alone on %s: %s: %s", l.Name, o.Name, sig, msg)
+					}
+				}
 			}
 		}
 	}
@@ -520,6 +577,11 @@ func TestC07(t *testing.T) {
 			rec.Sample(sampleCase(ec, map[string]interface{}{"same_object": c.SameObject}))
 		}
 	})
+	// the same relation through the command line tool: a narrowed run (any selection flag) under -config gives each
+	// selected lint what the library gives it under that configuration and selection
+	if p := getenv("VERIF_CLI"); p != "" {
+		cliConfigMatrix(t, rec, p, 1, "")
+	}
 }
 
 func init() {
